@@ -253,7 +253,8 @@ def run(ctx):
     # legacy call site
     tw = program.func("trigger.py::TrigInfo.trigger_watch")
     calls = [n for n in body_walk(tw) if isinstance(n, ast.Call) and call_name(n) == "TrigTime.timer_active_check"]
-    ctx.check(len(calls) == 1 and norm(calls[0].args[0]) == "self.time_active", "R07.3", "trigger.py::TrigInfo.trigger_watch", "legacy passes self.time_active",
+    from ..repo import deref_local
+    ctx.check(len(calls) == 1 and norm(deref_local(tw, calls[0].args[0])) == "self.time_active", "R07.3", "trigger.py::TrigInfo.trigger_watch", "legacy passes self.time_active",
               msg=f"trigger_watch calls timer_active_check with {[norm(c.args[0]) for c in calls]}", key="legacy whole list", node=tw, rel="trigger.py")
     hd = "decorators/timing.py::TimeActiveDecorator.handle_dispatch"
     for specs in (["range(t1, t3)", "not range(t2, t2)"], ["not range(t2, t2)", "range(t1, t3)"], ["range(t1, t1)", "range(t3, t3)"], ["not cron(no)", "not range(t2, t2)"],
